@@ -161,6 +161,27 @@ fn c09_is_valid_duration_boundary_subsecond() {
     assert!(got == !at_limit);
 }
 
+/// the same boundary when the sub-second fields only TOGETHER reach whole seconds: the carry between them counts
+/// (seconds = +-(2^53 - 1 - d), d in 0..=3; milliseconds up to 2 s, microseconds up to 2 s, nanoseconds up to 2 s worth)
+// bounded: seconds within 4 of the limit, each sub-second field worth at most 2 s, unwind 11 with unwinding assertions on
+#[kani::proof]
+#[kani::unwind(11)]
+fn c09_is_valid_duration_boundary_carry() {
+    let neg: bool = kani::any();
+    let d: u8 = kani::any();
+    kani::assume(d <= 3);
+    let ms: i64 = kani::any(); let us: i64 = kani::any(); let ns: i64 = kani::any();
+    kani::assume(ms >= 0 && ms <= 2_000 && us >= 0 && us <= 2_000_000 && ns >= 0 && ns <= 2_000_000_000);
+    let sg = if neg { -1.0 } else { 1.0 };
+    let s = 9_007_199_254_740_991.0 - d as f64;
+    let z = FiniteF64::default();
+    let sub_ns: i64 = ms * 1_000_000 + us * 1_000 + ns;
+    let whole = sub_ns / 1_000_000_000;
+    kani::cover!(whole == 1 && ms < 1000 && us < 1_000_000 && ns < 1_000_000_000);
+    let got = is_valid_duration(z, z, z, z, z, z, FiniteF64(sg * s), FiniteF64(sg * ms as f64), FiniteF64(sg * us as f64), FiniteF64(sg * ns as f64));
+    assert!(got == (whole <= d as i64));
+}
+
 // ---- F-bridge: the contracts Verus assumes on src/primitive.rs (specs/f64.rs), proved on the real methods ----
 
 /// as_date_value: integral x in i32 range -> Ok(x); integral x outside -> RangeError
